@@ -242,9 +242,14 @@ def _c10() -> SimEngine:
     return SimEngine(
         "C10",
         "named and unnamed requests of all kinds with few function names and explicit names imitating the generated pattern, group "
-        "cancellations followed by name re-use, interleaved spawners. Non-trivial: >= 3 requests, a group cancellation and a later request "
+        "cancellations followed by name re-use, interleaved spawners; a share of programs with a dozen and more live groups of one method "
+        "and function. Non-trivial: >= 3 requests, a group cancellation and a later request "
         "that got a name used before. Distinct = program hash.",
-        [("default", prof, 0.9), ("two-pools", dict(prof, max_pools=2), 0.1)],
+        [("default", prof, 0.75), ("two-pools", dict(prof, max_pools=2), 0.1),
+         # a dozen and more live groups of one method and function: generated indices with two digits, gaps from cancelled groups
+         ("many-groups", profile(classes=["TaskPool", "SimpleTaskPool"], kinds=["apply", "apply", "apply", "map"], fnames=["w"], p_gname=0.08, gname_range=(1, 14),
+                                 sizes=[None, None, 4], min_steps=22, max_steps=40, max_num=2, max_elems=2, p_cb=0.1, p_embedded=0.0,
+                                 ops={"spawn": 18, "cancel_group": 1.4, "gate": 1.5, "tick": 1, "settle": 0.3, "cancel": 0.2, "flush": 0.2, "stop": 0.2}), 0.15)],
         lambda case, l: n_spawns(case) >= 3 and bool(l & {"cancel_group:ok", "cancel_all:ok"}) and "group:name-reused" in l,
         n_quick=4000, n_thorough=200000, floors={"group:name-reused": 0.1})
 
